@@ -108,10 +108,10 @@ Fixpoint fill_sfx (tol first last : Q) (os cs F : list Q) : option (list Q) :=
   end.
 
 Lemma fill_loop_sfx tol first last ot oc : forall F i,
-  fill_loop tol first last ot oc F i = fill_sfx tol first last (skipn i ot) (skipn i oc) F.
+  fill_loop_v1 tol first last ot oc F i = fill_sfx tol first last (skipn i ot) (skipn i oc) F.
 Proof.
   induction F as [|t rest IH]; intros i; [reflexivity|].
-  cbn [fill_loop fill_sfx].
+  cbn [fill_loop_v1 fill_sfx].
   destruct (Qltb tol (first - t)); [rewrite IH; reflexivity|].
   destruct (Qltb tol (t - last)); [rewrite IH; reflexivity|].
   rewrite (nth_error_skipn ot i 1). replace (i + 1)%nat with (S i) by lia.
